@@ -27,12 +27,19 @@ class EncoderError(Exception):
 _cnt = itertools.count()
 
 
+_fresh_log = []   # every executor-introduced symbol of the current Executor (reset in Executor.__init__)
+
+
 def fresh(prefix, n):
-    return z3.BitVec('%s!%d' % (prefix, next(_cnt)), n)
+    v = z3.BitVec('%s!%d' % (prefix, next(_cnt)), n)
+    _fresh_log.append(v)
+    return v
 
 
 def fresh_bool(prefix):
-    return z3.Bool('%s!%d' % (prefix, next(_cnt)))
+    v = z3.Bool('%s!%d' % (prefix, next(_cnt)))
+    _fresh_log.append(v)
+    return v
 
 
 def mask(n): return (1 << n) - 1
@@ -189,13 +196,15 @@ class State:
 
 class Executor:
     def __init__(s, mod, assume=(), fork_timeout_ms=3000, max_unwind=70, max_steps=400000, fpmode='exact',
-                 stubs=None, max_depth=24):
-        global _side
+                 stubs=None, max_depth=24, ubshift_mode='fresh'):
+        global _side, _fresh_log
+        _fresh_log = []; s.fresh_log = _fresh_log
         s.mod = mod
         s.regions = {}
         s.assume = list(assume)
         s.obligs = []      # (kind, pc(list), cond, info)
         s.ub = []          # (cond BoolRef, text)
+        s.ubshift_mode = ubshift_mode; s.cur_ins = None; s.ubchoice = {}
         s.ubvals = []      # (fresh var, [candidate x86 results]) for out-of-range shifts
         s.accesses = []    # (pc, addr BV64, nbytes, align, 'r'|'w', rid, off)
         s.side = []; _side = s.side
@@ -512,6 +521,11 @@ class Executor:
             Bm = B & z3.BitVecVal((n - 1) if n & (n - 1) == 0 else mask(n), n)
             sat = (A >> z3.BitVecVal(n - 1, n)) if op == 'ashr' else z3.BitVecVal(0, n)
             wrap = {'shl': lambda: A << Bm, 'lshr': lambda: z3.LShR(A, Bm), 'ashr': lambda: A >> Bm}[op]()
+            if s.ubshift_mode == 'x86':
+                # one lowering per IR instruction (all lanes of a vector shift are lowered the same way)
+                key = id(s.cur_ins)
+                if key not in s.ubchoice: s.ubchoice[key] = z3.Bool('ubchoice!%d' % len(s.ubchoice))
+                return z3.If(oob, z3.If(s.ubchoice[key], sat, wrap), r)
             s.ubvals.append((fv, [sat, wrap]))
             return z3.If(oob, fv, r)
         if op in ('udiv', 'urem', 'sdiv', 'srem'):
@@ -591,7 +605,7 @@ class Executor:
 
     # FP arithmetic: exact mode = SMT FloatingPoint; abstract mode = uninterpreted functions with sound axioms
     def fp_arith(s, st, op, n, args, fmf=()):
-        if fmf:
+        if fmf and not (s.fpmode == 'token' and op == 'fadd' and set(fmf) <= {'reassoc', 'contract'}):
             s.fmf_seen.append((op, tuple(fmf)))
             return F(n, bits=fresh('fastmath', n))
         if s.fpmode == 'abstract':
@@ -1088,6 +1102,7 @@ class Executor:
         if s.steps > s.max_steps: raise Unsupported('step budget exceeded')
         op = ins.op
         R = st.regs
+        s.cur_ins = ins
         if op in llir.BINOPS:
             a = s.val(st, ins.ops[0]); b = s.val(st, ins.ops[1])
             R[ins.res] = s.binop(op, ins.ty, a, b, ins.extra['flags'], st)
